@@ -62,11 +62,11 @@ RoutingTotalOn(tokpid, act, Keys) ==
 (* no partition is active; otherwise the indexes of the keys grouped by the *)
 (* partition they route to (partitions without keys do not appear).         *)
 KeysByPartition(tokpid, act, keys) ==
-    IF act = {} \/ \E i \in 1..Len(keys) : ActivePartition(tokpid, act, keys[i]) = NoActive
-    THEN [err |-> TRUE, groups |-> << >>]
-    ELSE LET hit == {ActivePartition(tokpid, act, keys[i]) : i \in 1..Len(keys)}
-         IN  [err |-> FALSE,
-              groups |-> [p \in hit |-> {i \in 1..Len(keys) : ActivePartition(tokpid, act, keys[i]) = p}]]
+    LET R   == {<<i, ActivePartition(tokpid, act, keys[i])>> : i \in 1..Len(keys)}
+        hit == {r[2] : r \in R}
+    IN  IF act = {} \/ NoActive \in hit
+        THEN [err |-> TRUE, groups |-> << >>]
+        ELSE [err |-> FALSE, groups |-> [p \in hit |-> {r[1] : r \in {q \in R : q[2] = p}}]]
 
 (***************************************************************************)
 (* Replication sets (ring/partition_instance_ring.go,                      *)
